@@ -10,7 +10,7 @@ import numpy as np
 
 from .poly import Poly, parr, pvars, frac, z3mod, is_scalar
 
-SCALAR_OUT = {'norm1', 'norm2', 'norminf', 'sumsqr', 'quad', 'entropy', 'max', 'pnorm', 'gmean', 'kldiv'}
+SCALAR_OUT = {'norm1', 'norm2', 'norminf', 'sumsqr', 'quad', 'entropy', 'max', 'pnorm', 'gmean', 'kldiv', 'sumexp', 'sumlog'}
 CURV = {'abs': 1, 'norm1': 1, 'norm2': 1, 'norminf': 1, 'square': 1, 'sumsqr': 1, 'quad': 1, 'exp': 1,
         'log': -1, 'entropy': -1, 'softplus': 1, 'max': 1, 'pnorm': 1, 'power': 1, 'gmean': -1,
         'pexp': 1, 'plog': -1}
@@ -131,6 +131,24 @@ class Z3Env:
         return Poly.lift(poly).z3(self)
 
 
+_PHI = [None]
+
+
+def PHI():
+    """Uninterpreted phi(a, c) standing for c*exp(a/c), c > 0 (cone-term abstraction)."""
+    z3 = z3mod()
+    if _PHI[0] is None:
+        _PHI[0] = z3.Function('PHI', z3.RealSort(), z3.RealSort(), z3.RealSort())
+    return _PHI[0]
+
+
+def expcone(z3, a, b, c):
+    """(a, b, c) in K_exp:  c > 0 and c*exp(a/c) <= b   or the closure  c = 0, a <= 0, b >= 0.
+    phi > 0 is the only property of exp used besides congruence (sound for `unsat`)."""
+    f = PHI()(a, c)
+    return z3.Or(z3.And(c > 0, f <= b, f > 0), z3.And(c == 0, a <= 0, b >= 0))
+
+
 def z_abs(z3, t):
     return z3.If(t >= 0, t, -t)
 
@@ -223,6 +241,20 @@ def atom_domain(atom, env):
     return []
 
 
+def _bcast_phi(a, phis):
+    """Values of phi (one per argument entry, or a single scalar) broadcast to the shape of the offset, as
+    NumPy broadcasts `atom(arg) + off`."""
+    n = a.off.size
+    if len(phis) == n and (isinstance(a.arg, list) or a.arg.shape == a.off.shape or a.kind in SCALAR_OUT):
+        return phis
+    if len(phis) == 1:
+        return phis * n
+    arr = np.empty(len(phis), dtype=object)
+    arr[:] = phis
+    arr = arr.reshape(a.arg.shape)
+    return list(np.broadcast_to(arr, a.off.shape).reshape(-1))
+
+
 def cons_z3(c, env, eps=0):
     """List of z3 booleans equivalent to the constraint (definitions go to env.defs).
     eps > 0 relaxes the constraint by a margin (tolerance regime)."""
@@ -231,6 +263,8 @@ def cons_z3(c, env, eps=0):
     epsv = z3.RealVal(str(eps))
     if isinstance(c, OCustom):
         return c.z3fn(env) if not eps else c.z3fn(env, eps)
+    if c.is_atom() and c.sense == 'le' and c.expr.kind in EXP_KINDS:
+        return exp_le(c.expr, env)
     if c.is_atom() and c.sense == 'le' and not eps:
         d = direct_le(c.expr, env)
         if d is not None:
@@ -241,8 +275,7 @@ def cons_z3(c, env, eps=0):
         offs = list(a.off.reshape(-1))
         k = z3.RealVal(str(a.k))
         dom = atom_domain(a, env)
-        if len(phis) == 1 and len(offs) > 1:
-            phis = phis * len(offs)
+        phis = _bcast_phi(a, phis)
         for ph, of in zip(phis, offs):
             lhs = k * ph + env.p(of)
             out.append(lhs <= epsv if c.sense == 'le' else z3.And(lhs <= epsv, lhs >= -epsv))
@@ -251,6 +284,74 @@ def cons_z3(c, env, eps=0):
         for p in c.polys():
             t = env.p(p)
             out.append(t <= epsv if c.sense == 'le' else z3.And(t <= epsv, t >= -epsv))
+    return out
+
+
+EXP_KINDS = ('exp', 'log', 'pexp', 'plog', 'softplus', 'entropy', 'sumexp', 'sumlog')
+
+
+def exp_le(a, env):
+    """k*phi(arg) + off <= 0 for the exponential-cone atoms, in cone normal form (documented identities):
+       exp      (k>0)  exp(e) <= -off/k                      <=>  (e, -off/k, 1) in K
+       log      (k<0)  log(e) >= g, g = off/(-k)             <=>  (g, e, 1) in K
+       pexp     (k>0)  s*exp(e/s) <= -off/k                  <=>  (e, -off/k, s) in K
+       plog     (k<0)  s*log(e/s) >= g                       <=>  (g, e, s) in K
+       softplus (k>0)  log(1+exp(u)) <= -o, o = off/k        <=>  phi(u+o,1) + phi(o,1) <= 1
+       entropy  (k<0)  -sum x log x >= g                     <=>  exists w: sum w >= g, (w_i, 1, x_i) in K
+    Existential auxiliaries are fresh variables recorded in env.exist (witnesses are supplied by the caller
+    when the constraint appears negated)."""
+    z3 = env.z3
+    kind = a.kind
+    k = a.k
+    args = [env.p(p) for p in a.arg.reshape(-1)]
+    offs = [env.p(p) for p in a.off.reshape(-1)]
+    if kind in ('exp', 'log', 'pexp', 'plog', 'softplus'):
+        args = _bcast_phi(a, args)
+    one = z3.RealVal(1)
+    out = []
+    if kind in ('exp', 'pexp', 'softplus', 'sumexp') and k <= 0 or kind in ('log', 'plog', 'entropy', 'sumlog') and k >= 0:
+        raise ValueError('non-convex use in the oracle')
+    kinv = z3.RealVal(str(1 / abs(k)))
+    if kind == 'exp':
+        for e, o in zip(args, offs):
+            out.append(expcone(z3, e, -o * kinv, one))
+    elif kind == 'log':
+        for e, o in zip(args, offs):
+            out.append(expcone(z3, o * kinv, e, one))
+    elif kind in ('pexp', 'plog'):
+        sc = [env.p(p) for p in parr(a.params).reshape(-1)]
+        if len(sc) == 1:
+            sc = sc * len(args)
+        for e, o, s_ in zip(args, offs, sc):
+            out.append(expcone(z3, e, -o * kinv, s_) if kind == 'pexp' else expcone(z3, o * kinv, e, s_))
+    elif kind == 'softplus':
+        for e, o in zip(args, offs):
+            oo = o * kinv
+            f1, f2 = PHI()(e + oo, one), PHI()(oo, one)
+            out += [f1 + f2 <= 1, f1 > 0, f2 > 0]
+    elif kind == 'sumexp':
+        # sum_i exp(e_i) <= -off/k
+        fs = [PHI()(e, one) for e in args]
+        out += [z3.Sum(fs) <= -offs[0] * kinv] + [f > 0 for f in fs]
+    elif kind == 'sumlog':
+        # sum_i log(e_i) >= g  <=>  exists w: sum w >= g, exp(w_i) <= e_i
+        g = offs[0] * kinv
+        ws = []
+        for e in args:
+            w = env.new('w')
+            ws.append(w)
+            out.append(expcone(z3, w, e, one))
+        out.append(z3.Sum(ws) >= g)
+        env.exist = getattr(env, 'exist', []) + [(w, 'sumlog', e) for w, e in zip(ws, args)]
+    elif kind == 'entropy':
+        g = offs[0] * kinv
+        ws = []
+        for i, e in enumerate(args):
+            w = env.new('w')
+            ws.append(w)
+            out.append(expcone(z3, w, one, e))
+        out.append(z3.Sum(ws) >= g)
+        env.exist = getattr(env, 'exist', []) + [(w, 'entropy', e) for w, e in zip(ws, args)]
     return out
 
 
@@ -267,8 +368,7 @@ def direct_le(a, env):
         args = [env.p(p) for p in a.arg.reshape(-1)]
         offs = [env.p(p) for p in a.off.reshape(-1)]
         n = len(offs)
-        if len(args) != n:
-            args = args * n if len(args) == 1 else args
+        args = _bcast_phi(a, args)
         fp = np.broadcast_to(np.array(ps), a.off.shape).reshape(-1)
         fq = np.broadcast_to(np.array(qs), a.off.shape).reshape(-1)
         out = []
@@ -307,10 +407,17 @@ def cons_eval(c, assign, tol=1e-7):
             phi = [max(parr(p).reshape(-1)[0].evalf(assign) for p in a.arg)]
         else:
             args = np.array([p.evalf(assign) for p in a.arg.reshape(-1)], dtype=float)
-            phi = atom_eval(a, args)
+            if a.kind in ('pexp', 'plog'):
+                sc = [p.evalf(assign) for p in parr(a.params).reshape(-1)]
+                sc = sc * len(args) if len(sc) == 1 else sc
+                if a.kind == 'pexp':
+                    phi = [s_ * math.exp(v / s_) if s_ > 0 else (0.0 if v <= 0 else 1e300) for v, s_ in zip(args, sc)]
+                else:
+                    phi = [s_ * math.log(v / s_) if s_ > 0 and v > 0 else -1e300 for v, s_ in zip(args, sc)]
+            else:
+                phi = atom_eval(a, args)
         offs = [p.evalf(assign) for p in a.off.reshape(-1)]
-        if len(phi) == 1 and len(offs) > 1:
-            phi = phi * len(offs)
+        phi = _bcast_phi(a, list(phi))
         for ph, of in zip(phi, offs):
             v = float(a.k) * ph + of
             worst = max(worst, v if c.sense == 'le' else abs(v))
@@ -347,6 +454,10 @@ def atom_eval(a, args):
         return [math.log1p(math.exp(v)) for v in args]
     if k == 'entropy':
         return [float(-sum(v * math.log(v) for v in args if v > 0))] if all(v >= 0 for v in args) else [-1e300]
+    if k == 'sumexp':
+        return [float(sum(math.exp(v) for v in args))]
+    if k == 'sumlog':
+        return [float(sum(math.log(v) for v in args))] if all(v > 0 for v in args) else [-1e300]
     if k == 'power':
         ps, qs = a.params
         fp = np.broadcast_to(np.array(ps, dtype=float), a.off.shape).reshape(-1)
